@@ -690,6 +690,12 @@ def _palette_problems(glyphs, result):
             if getattr(f, "current", False):
                 # the foreground colour is index 0xFFFF, never a palette entry (checked below)
                 continue
+            if not isinstance(f, e2e.Solid):
+                # every stop colour is a palette colour: opaque in COLRv1, with the stop's
+                # alpha x the shape's opacity in COLRv0
+                for _, rgb_, a_ in f.stops:
+                    seen.add((rgb_, 255 if v1 else round(a_ * sh.opacity * 255)))
+                continue
             a = 1.0 if v1 else f.alpha * sh.opacity
             seen.add((f.rgb, round(a * 255)))
             if f.index is not None:
@@ -714,6 +720,31 @@ def _palette_problems(glyphs, result):
             if not any(s_[0] == (c.red, c.green, c.blue) and abs(s_[1] - c.alpha) <= 1 for s_ in seen):
                 bad.append(("gap that is not black", i, (c.red, c.green, c.blue, c.alpha)))
     return bad
+
+
+def _gen_palette_gradients(rng):
+    fmt = rng.choice(["glyf_colr_1", "glyf_colr_0", "glyf_colr_0"])
+    glyphs = e2e.gen_glyphset(rng, gradients=True, groups=False, reuse=False)
+    for g in glyphs:
+        for sh in e2e.all_shapes(g):
+            if getattr(sh.fill, "current", False):
+                sh.opacity = 1.0  # F14's class stays with its recorded witness
+            elif not isinstance(sh.fill, e2e.Solid) and rng.random() < 0.5:
+                sh.opacity = rng.choice([0.5, 0.25])
+    return {"glyphs": glyphs, "overrides": dict(color_format=fmt, output_file="out.ttf")}
+
+
+@contract("nanoemoji.write_font._generate_color_font", props=["C15"])
+class e2e_palette_with_gradients:
+    bounded_only = True
+    gen = _gen_palette_gradients
+    native_call = _build
+    n_quick = 30
+    n_thorough = 400
+    ensures = {
+        # gradient stops are palette colours too (COLRv0: with their alpha)
+        "palette-holds-every-stop-colour": lambda glyphs, result: _palette_problems(glyphs, result) == [],
+    }
 
 
 @contract("nanoemoji.write_font._generate_color_font", props=["C15"])
